@@ -131,5 +131,49 @@ def extract (n : Nat) (flags : List UInt8) (hashes : List α) : Option (α × Li
       else if restHashes.length ≠ 0 then none
       else some (root, m)
 
+/-- `TraverseAndExtract` with Bitcoin Core's CVE-2012-2459 guard: an inner node whose right child
+    exists must not have equal left and right hashes -/
+def extractNodeStrict [DecidableEq α] (n : Nat) : Nat → Nat → List Bool → List α →
+    Option (α × List (Nat × α) × List Bool × List α)
+  | _, _, [], _ => none
+  | 0, pos, b :: bits, hs =>
+    match hs with
+    | [] => none
+    | x :: hs => some (x, if b then [(pos, x)] else [], bits, hs)
+  | h+1, pos, b :: bits, hs =>
+    if b = false then
+      match hs with
+      | [] => none
+      | x :: hs => some (x, [], bits, hs)
+    else
+      match extractNodeStrict n h (pos * 2) bits hs with
+      | none => none
+      | some (l, m1, bits1, hs1) =>
+        if pos * 2 + 1 < width n h then
+          match extractNodeStrict n h (pos * 2 + 1) bits1 hs1 with
+          | none => none
+          | some (r, m2, bits2, hs2) => if l = r then none else some (hh l r, m1 ++ m2, bits2, hs2)
+        else some (hh l l, m1, bits1, hs1)
+
+def extractStrict [DecidableEq α] (n : Nat) (flags : List UInt8) (hashes : List α) :
+    Option (α × List (Nat × α)) :=
+  if n = 0 then none
+  else if hashes.length > n then none
+  else if flags.length * 8 < hashes.length then none
+  else
+    match extractNodeStrict hh n (treeHeight n) 0 (unpackFlags flags) hashes with
+    | none => none
+    | some (root, m, restBits, restHashes) =>
+      let used := flags.length * 8 - restBits.length
+      if (used + 7) / 8 ≠ flags.length then none
+      else if restHashes.length ≠ 0 then none
+      else some (root, m)
+
+/-- no inner node of the full tree has two equal children (holds for a collision-free hash over
+    distinct transactions; it is what CVE-2012-2459's guard relies on) -/
+def DistinctSiblings (leaves : List α) : Prop :=
+  ∀ h pos, pos * 2 + 1 < width leaves.length h →
+    calcHash hh dflt leaves h (pos * 2) ≠ calcHash hh dflt leaves h (pos * 2 + 1)
+
 end
 end BV.C20.Pmt
